@@ -85,6 +85,7 @@ def plan(tier, seed):
     shards.append(("shapes",))
     shards += [("grainhist", c) for c in range(4)]
     shards += [("combine", ci) for ci in range(0, len(CELLS), 2 if tier == "quick" else 1)]
+    shards += [("threads", c) for c in range(2)]
     k = seed % len(shards)
     return shards[k:] + shards[:k]
 
@@ -516,7 +517,58 @@ def _run_combine(desc):
     return sh
 
 
+def _run_threads(desc):
+    """two python threads read the cached properties of two DIFFERENT grains at the same time (a thread pool mapped over a grain list):
+    every schedule with one preemption at a BYTECODE of the grain module is executed (engine E7, opcode points: a product and the copy of
+    its result inside one statement can be separated); each grain must end up with the
+    properties it has when it is read alone"""
+    _, c = desc
+    from ImageD11 import grain as gm
+    from vt import pysched
+    sh = Shard()
+    R = rotations(seed_of())
+    ubis = [make_ubi(CELLS[ci], R[ri], STRAINS[si]) for ci, ri, si in ((0, 5, 0), (8, 7, 4), (2, 6, 2), (5, 1, 3))]
+    pairs = [(0, 1), (2, 3), (1, 2)][c::2]
+    modfile = gm.__file__
+    names = ("U", "B", "UB", "mt", "rmt", "unitcell")
+    for a, b in pairs:
+        alone = [{nm: np.array(getattr(gm.grain(ubis[k].copy()), nm)) for nm in names} for k in (a, b)]
+        holder = {}
+
+        def reset():
+            holder["g"] = [gm.grain(ubis[a].copy()), gm.grain(ubis[b].copy())]
+
+        def make():
+            return [lambda: {nm: np.array(getattr(holder["g"][0], nm)) for nm in names},
+                    lambda: {nm: np.array(getattr(holder["g"][1], nm)) for nm in names}]
+        nexec = 0
+        for sw, res, err in pysched.explore(make, lambda fr: fr.f_code.co_filename == modfile, bound=1, reset=reset, max_exec=20000, opcodes=True):
+            nexec += 1
+            case = {"kind": "threads", "grains": [a, b], "switch_at_points": list(sw), "seed": seed_of()}
+            for t in range(2):
+                if err[t] is not None:
+                    sh.violation("grain:concurrent-read-raises", dict(case, thread=t), {"error": repr(err[t])[:200]})
+                    break
+                badn = [nm for nm in names if not np.array_equal(res[t][nm], alone[t][nm]) or
+                        not np.array_equal(np.array(getattr(holder["g"][t], nm)), alone[t][nm])]
+                if badn:
+                    sh.violation("grain.%s:differs-when-another-grain-is-read-at-the-same-time" % badn[0], dict(case, thread=t), {})
+                    break
+            sh.states += 1
+            sh.traces_validated += 1
+            if sh.violations:
+                break
+        sh.count("thread_schedules_executed", nexec)
+        sh.evaluations += 1
+        sh.nontrivial += 1
+    sh.outcomes.add(("threads", c))
+    sh.sample({"kind": "threads", "schedules": nexec}, limit=1)
+    return sh
+
+
 def run_shard(desc):
+    if desc[0] == "threads":
+        return _run_threads(desc)
     if desc[0] == "combine":
         return _run_combine(desc)
     if desc[0] == "grainhist":
@@ -527,6 +579,11 @@ def run_shard(desc):
 def replay(case):
     os.environ["VERIF_SEED"] = str(case.get("seed", 0))
     sh = Shard()
+    if case["kind"] == "threads":
+        r = _run_threads(("threads", 0))
+        r2 = _run_threads(("threads", 1))
+        v = [x for x in r.violations + r2.violations if x["case"]["grains"] == case["grains"]]
+        return (not v), {"violations": v[:3]}
     if case["kind"] == "combine":
         r = _run_combine(("combine", CELLS.index(case["cell"])))
         v = [x for x in r.violations if x["case"]["owners"] == case["owners"] and x["case"]["read_before_combining"] == case["read_before_combining"]]
